@@ -178,6 +178,26 @@ theorem C11_sink_utf32_text (showpageno : Bool) (ps : List Page) :
   have h := C11_sink_utf32 true (textDocWritesPn showpageno ps)
   rwa [C11_text_pageno] at h
 
+/-- the same for `utf-16`: byte-order mark once, little-endian code units, surrogate pairs for astral
+characters - a variable-length encoding whose pieces may be cut anywhere between characters -/
+theorem C11_sink_utf16 (ignore : Bool) (writes : List Str) :
+    ∃ bs, sinkBinary (utf16Codec true false) ignore writes = some bs ∧ utf16Decode bs = some (sinkText writes) :=
+  C11_sink (utf16Codec true false) utf16Decode utf16_inv ignore writes
+    (encodePiece_total (utf16Codec true false) (fun _ _ => rfl) false _ _)
+
+theorem C11_sink_utf16_text (showpageno : Bool) (ps : List Page) :
+    ∃ bs, sinkBinary (utf16Codec true false) true (textDocWritesPn showpageno ps) = some bs ∧
+      utf16Decode bs = some (specTextPn showpageno ps) := by
+  have h := C11_sink_utf16 true (textDocWritesPn showpageno ps)
+  rwa [C11_text_pageno] at h
+
+example : sinkBinary (utf16Codec true false) false [['a'], [], [Char.ofNat 0x1F600]] =
+    some [0xFF, 0xFE, 97, 0, 0x3D, 0xD8, 0x00, 0xDE] := by decide
+
+example : utf16Decode [0xFF, 0xFE, 0x3D, 0xD8, 0x00, 0xDE] = some [Char.ofNat 0x1F600] ∧
+    utf16Decode [0xFF, 0xFE, 0x3D, 0xD8] = none ∧ utf16Decode [0xFF, 0xFE, 0x00, 0xDE] = none ∧
+    utf16Decode [97, 0] = none := by decide
+
 example : sinkBinary utf32Codec false [['a'], [], ['b']] =
     some [0xFF, 0xFE, 0, 0, 97, 0, 0, 0, 98, 0, 0, 0] := by decide
 
@@ -381,6 +401,13 @@ theorem C11_xml_wf_utf32 (strip : Bool) (codec : Option Str) (ps : List Page) (h
     ∃ bs, sinkBinary utf32Codec false (xmlDocWrites strip codec ps) = some bs ∧
       (utf32Decode bs).bind parseXML = some (docSkeleton strip ps) := by
   obtain ⟨bs, h1, h2⟩ := C11_sink_utf32 false (xmlDocWrites strip codec ps)
+  exact ⟨bs, h1, by rw [h2]; exact C11_xml_wf strip codec ps hc h⟩
+
+theorem C11_xml_wf_utf16 (strip : Bool) (codec : Option Str) (ps : List Page) (hc : CodecNameOk codec)
+    (h : ∀ p ∈ ps, PageOk strip p) :
+    ∃ bs, sinkBinary (utf16Codec true false) false (xmlDocWrites strip codec ps) = some bs ∧
+      (utf16Decode bs).bind parseXML = some (docSkeleton strip ps) := by
+  obtain ⟨bs, h1, h2⟩ := C11_sink_utf16 false (xmlDocWrites strip codec ps)
   exact ⟨bs, h1, by rw [h2]; exact C11_xml_wf strip codec ps hc h⟩
 
 /-- the escapes matter: the same figure name written raw (the pinned behaviour) is rejected by the reader -/
